@@ -170,6 +170,7 @@ type lworld struct {
 	kind  string
 	x     *qx.Exec
 	pbusy [nProd + 1]bool                // producer has an outstanding AddAnyway
+	brun  int                            // the goroutine of the burst issued last
 	pp    []qa.Act                       // count model: adds of producers that the model believes blocked
 	busy  [nCons + 1]bool                // consumer has an outstanding Pop
 	gid   [nCons + nCall + nProd + 1]int // goroutine ids of the workers (written by the call itself)
@@ -192,6 +193,9 @@ func (a act) rec() tr.E {
 	}
 	if a.Op == "paddw" {
 		e["p"] = a.P
+	}
+	if a.Op == "burst" {
+		e["c"] = a.C // the consumer goroutine that runs the burst when it contains Pops (0: a caller goroutine)
 	}
 	if a.Op == "burst" || a.Op == "race" {
 		recs := make([]tr.E, len(a.Acts))
@@ -222,16 +226,36 @@ func (wd *lworld) issue(a act) bool {
 		// one goroutine, the calls back to back, no quiescence in between: woken consumers race
 		// with the rest of the burst
 		var keep []qa.Act
+		closedBefore := wd.m.Closed
 		for _, x := range a.Acts {
-			if x.Op != "pop" && x.Op != "addw" && x.Op != "paddw" && qa.Supports(wd.kind, x) && wd.m.Returns(x) {
+			if x.Op == "pop" { // only where it cannot block: PopAnyway... any Pop after a close
+				if a.C >= 1 && a.C <= nCons && !wd.busy[a.C] && closedBefore && qa.Supports(wd.kind, x) {
+					keep = append(keep, x)
+				}
+				continue
+			}
+			if x.Op != "addw" && x.Op != "paddw" && qa.Supports(wd.kind, x) && wd.m.Returns(x) {
 				keep = append(keep, x)
+				if x.Op == "close" {
+					closedBefore = true
+				}
 			}
 		}
 		if len(keep) == 0 {
 			return false
 		}
 		a.Acts = keep
-		wd.x.Issue(nCons+1, func() interface{} {
+		runner := nCons + 1
+		for _, x := range keep {
+			if x.Op == "pop" {
+				runner = a.C
+			}
+		}
+		if runner == nCons+1 {
+			a.C = 0
+		}
+		wd.brun = runner
+		wd.x.Issue(runner, func() interface{} {
 			rs := make([]tr.E, len(keep))
 			for i, x := range keep {
 				rs[i] = qa.Safe(q, x)
@@ -369,7 +393,11 @@ func (wd *lworld) collect() {
 			rs = append(rs, r)
 		}
 	default:
-		r, ok := wd.x.Take(nCons + 1)
+		from := nCons + 1
+		if a.Op == "burst" {
+			from = wd.brun
+		}
+		r, ok := wd.x.Take(from)
 		switch {
 		case !ok:
 			rep = qa.Rp("blocked", 0)
@@ -463,7 +491,9 @@ func (wd *lworld) collect() {
 		ev["rs"] = rs
 		wd.fuzzy = true
 		for _, x := range a.Acts {
-			if x.Op != "tryclose" || tryCloseCounts {
+			if x.Op == "pop" {
+				wd.modelPop(x)
+			} else if x.Op != "tryclose" || tryCloseCounts {
 				wd.model(x)
 			}
 		}
@@ -1586,18 +1616,31 @@ func raceProd(rng *rand.Rand, kind string, rcap int) (plan []act) {
 		plan = append(plan, act{Act: qa.Act{Op: "add", Lane: "req", V: next()}})
 	}
 	k := 1 + rng.Intn(nProd)
-	if rng.Intn(3) == 0 {
+	if rng.Intn(2) == 0 {
 		k = 2 + rng.Intn(nProd-1)
 	}
 	for p := 1; p <= k; p++ {
 		plan = append(plan, act{Act: qa.Act{Op: "paddw", Lane: "req", V: next()}, P: p})
 	}
 	for round := 0; round < 2; round++ {
-		r := act{Act: qa.Act{Op: "race"}}
-		for c, n := 1, 1+rng.Intn(3); c <= n; c++ {
-			r.Acts, r.RC = append(r.Acts, qa.Act{Op: "pop", Any: rng.Intn(2) == 0}), append(r.RC, c)
+		if round == 0 && rng.Intn(3) == 0 {
+			// one goroutine closes and at once takes items out with PopAnyway: the producers woken by the
+			// close find room in a closed queue
+			b := act{Act: qa.Act{Op: "burst"}, C: 1}
+			b.Acts = []qa.Act{{Op: "close"}}
+			for n := 1 + rng.Intn(2); n > 0; n-- {
+				b.Acts = append(b.Acts, qa.Act{Op: "pop", Any: true})
+			}
+			plan = append(plan, b)
+			continue
 		}
-		if round == 0 && rng.Intn(2) == 0 {
+		r := act{Act: qa.Act{Op: "race"}}
+		closing := round == 0 && rng.Intn(2) == 0
+		for c, n := 1, 1+rng.Intn(3); c <= n; c++ {
+			// beside a close only PopAnyway still makes room (for a producer that must NOT use it)
+			r.Acts, r.RC = append(r.Acts, qa.Act{Op: "pop", Any: closing || rng.Intn(2) == 0}), append(r.RC, c)
+		}
+		if closing {
 			r.Acts, r.RC = append(r.Acts, qa.Act{Op: "close"}), append(r.RC, 0)
 		}
 		if k < nProd && rng.Intn(3) == 0 {
